@@ -44,6 +44,15 @@ class _Raise(Exception):
     def __init__(self, name): self.name = name
 
 
+class _Infeasible(Exception):
+    pass
+
+
+class _Abort(Exception):
+    """Path cut by the executor; the VC layer must prove that its path condition is infeasible."""
+    def __init__(self, why): self.why = why
+
+
 _cnt = itertools.count()
 
 
@@ -156,10 +165,15 @@ class Exec:
         return self.src_cache[key]
 
     # ------------------------------------------------------------- driver: all paths of one call
-    def run(self, static_cls, name, recv, args, heap, pre):
-        """Explore every path of recv.name(*args).  Returns outcomes [(kind, pc, heap, value|excname)]."""
+    def run(self, static_cls, name, recv, args, heap, pre, hyps=()):
+        """Explore every path of recv.name(*args).  Returns outcomes [(kind, pc, heap, value|excname)].
+        `hyps` (the invariant of the pre-state, quantified) is only used to prune infeasible branches."""
         outs = []
         work = [[]]
+        self.prune = z3.Solver()
+        self.prune.set('timeout', int(__import__('os').environ.get('VERIF_PRUNE_MS', '8000')))
+        for hh in hyps: self.prune.add(hh)
+        self.pruned = 0
         while work:
             self.prefix = work.pop(); self.pos = 0; self.taken = []; self.alts = []
             self.pc = list(pre)
@@ -169,6 +183,10 @@ class Exec:
                 outs.append(('return', list(self.pc), h, v))
             except _Raise as r:
                 outs.append(('raise', list(self.pc), h, r.name))
+            except _Infeasible:
+                pass
+            except _Abort as a:
+                outs.append(('abort', list(self.pc), h, a.why))
             work.extend(self.alts)
         return outs
 
@@ -179,8 +197,16 @@ class Exec:
         if self.pos < len(self.prefix):
             out = self.prefix[self.pos]
         else:
-            out = True
-            self.alts.append(self.taken + [False])
+            can_t = self.prune.check(*(self.pc + [cond])) != z3.unsat
+            can_f = self.prune.check(*(self.pc + [z3.Not(cond)])) != z3.unsat
+            if can_t and can_f:
+                out = True
+                self.alts.append(self.taken + [False])
+            elif can_t or can_f:
+                out = can_t
+                self.pruned += 1
+            else:
+                raise _Infeasible()
         self.pos += 1
         self.taken.append(out)
         self.pc.append(cond if out else z3.Not(cond))
@@ -189,7 +215,7 @@ class Exec:
     # ------------------------------------------------------------- calls
     def call_method(self, static_cls, name, recv, args, heap, depth):
         if depth > self.MAX_DEPTH:
-            raise Unsupported('inlining depth exceeded (recursion?)')
+            raise _Abort('inlining depth exceeded')
         fdef = self.method_ast(static_cls, name)
         params = [a.arg for a in fdef.args.args]
         env = {}
@@ -652,6 +678,10 @@ def WF(h):
     C.append(('T3: port lists hold allocated streams or placeholders; lengths are non-negative',
               z3.ForAll([S, i], z3.Implies(z3.And(al(S), z3.Or(k(S) == INLETS, k(S) == OUTLETS)),
                                            z3.And(ln(S) >= 0, z3.Implies(inr(S, i), z3.And(al(h.el(S, i)), z3.Or(k(h.el(S, i)) == STREAM, k(h.el(S, i)) == MISSING))))))))
+    C.append(('T4: the sink and source of every stream or placeholder is None or a unit',
+              z3.ForAll([s], z3.Implies(z3.And(al(s), z3.Or(k(s) == STREAM, k(s) == MISSING)), z3.And(
+                  z3.Or(z3.Select(h.sink, s) == 0, z3.And(al(z3.Select(h.sink, s)), k(z3.Select(h.sink, s)) == UNIT)),
+                  z3.Or(z3.Select(h.source, s) == 0, z3.And(al(z3.Select(h.source, s)), k(z3.Select(h.source, s)) == UNIT)))))))
     C.append(('I1: a stream listed among a unit\'s inlets (outlets) has that unit as its sink (source)',
               z3.ForAll([S, i], z3.And(
                   z3.Implies(z3.And(al(S), k(S) == INLETS, inr(S, i)), z3.Select(h.sink, h.el(S, i)) == z3.Select(h.sink, S)),
